@@ -645,7 +645,7 @@ func findIIFEs(pkgs map[string]*packages.Package) []iifeSite {
 						}
 					case *ast.IfStmt:
 						// if x := func() T {…}(); cond { … }
-						if as, ok := s.Init.(*ast.AssignStmt); ok && len(as.Rhs) == 1 && as.Tok == token.DEFINE {
+						if as, ok := s.Init.(*ast.AssignStmt); ok && len(as.Rhs) == 1 && (as.Tok == token.DEFINE || as.Tok == token.ASSIGN) {
 							if fl := iife(as.Rhs[0]); fl != nil {
 								out = append(out, iifeSite{pkg: pk, file: f, stmt: s, lit: fl, lhs: as.Lhs, tok: as.Tok, ifInit: s})
 							}
@@ -934,9 +934,7 @@ func flattenOne(site iifeSite) string {
 	})
 	// (`r1, r2 = f()` is as legal as `return f()`: the results are assignable to the variables by the same rule)
 	_ = multi
-	if clash {
-		return ""
-	}
+	_ = clash // (the temporaries are declared under names of their own: nothing in BODY is captured)
 	// from here on the syntax tree is modified (it is re-parsed before the next round)
 	ast.Inspect(lit.Body, func(n ast.Node) bool {
 		if id, ok := n.(*ast.Ident); ok {
@@ -1029,19 +1027,15 @@ func flattenOne(site iifeSite) string {
 		out.WriteString("}\n")
 		return out.String()
 	}
-	var names []string
-	for n := range hoisted {
-		names = append(names, n)
-	}
-	sort.Strings(names)
-	for _, n := range names {
-		fmt.Fprintf(&out, "var %s %s\n", n, hoisted[n])
-	}
-	out.WriteString("{\n")
+	// the results go into temporaries declared in front of the block (their names are unique, so nothing in BODY can
+	// be captured by them), and the original left-hand side is assigned — or defined, as it was — behind it
 	for _, r := range results {
 		fmt.Fprintf(&out, "var %s %s\n_ = %s\n", r.name, r.typ, r.name)
 	}
+	out.WriteString("{\n")
 	fmt.Fprintf(&out, "%s:\nswitch {\ndefault:\n%s}\n", label, bb.String())
+	out.WriteString("}\n")
+	assignText := ""
 	if len(site.lhs) > 0 {
 		var l, r []string
 		for i, e := range site.lhs {
@@ -1052,9 +1046,15 @@ func flattenOne(site iifeSite) string {
 			l = append(l, eb.String())
 			r = append(r, results[i].name)
 		}
-		fmt.Fprintf(&out, "%s = %s\n", strings.Join(l, ", "), strings.Join(r, ", "))
+		tok := "="
+		if site.tok == token.DEFINE {
+			tok = ":="
+		}
+		assignText = fmt.Sprintf("%s %s %s", strings.Join(l, ", "), tok, strings.Join(r, ", "))
+		if site.ifInit == nil {
+			out.WriteString(assignText + "\n")
+		}
 	}
-	out.WriteString("}\n")
 	text := out.String()
 	// the label must be used: if BODY never returns early add a break at its end
 	if !strings.Contains(bb.String(), "break "+label) {
@@ -1066,7 +1066,11 @@ func flattenOne(site iifeSite) string {
 		if printNode(&ib, fset, site.ifInit) != nil {
 			return ""
 		}
-		text = "{\n" + text + ib.String() + "\n}\n"
+		ifText := ib.String()
+		if assignText != "" && strings.HasPrefix(ifText, "if ") {
+			ifText = "if " + assignText + "; " + ifText[3:]
+		}
+		text = "{\n" + text + ifText + "\n}\n"
 	}
 	return text
 }
